@@ -25,12 +25,14 @@ import (
 var rpgAddr = common.HexToAddress("0x71d9cfd1b7adb1e8eb4c193ce6ffbe19b4aee0db") // the genesis wRPG contract address
 
 type QTx struct {
-	line    string // op line without the oracle suffix
-	tx      *types.Transaction
-	isCt    bool
-	feat    map[string]bool // features for the searcher's classification
-	locked  *big.Int        // stake this tx locks when it succeeds
-	mayBurn bool            // a SELFDESTRUCT is reachable from this transaction (set by the searcher)
+	line       string // op line without the oracle suffix
+	tx         *types.Transaction
+	isCt       bool
+	feat       map[string]bool // features for the searcher's classification
+	locked     *big.Int        // stake this tx locks when it succeeds
+	onSuccess  func()          // harness bookkeeping when the transaction succeeded
+	canUnstake bool            // an UNSTAKE is reachable from this transaction (set by the searcher)
+	mayBurn    bool            // a SELFDESTRUCT is reachable from this transaction (set by the searcher)
 }
 
 type World struct {
@@ -44,7 +46,6 @@ type World struct {
 	codes         map[common.Address]Script
 	out           *hx.Out
 	miners        []minerRec // registered by successful MinerApply transactions
-	pendingMiners []minerRec
 	minerSeq      uint64
 	refundSeq     uint64
 	authUsed      bool // a queued transaction of the current block already targets authC
@@ -100,7 +101,8 @@ func (w *World) Reset(emit bool) {
 	w.installed = map[common.Address]bool{}
 	w.escrowHeights = map[uint64]bool{}
 	w.miners = nil
-	w.pendingMiners = nil
+	w.minerSeq = 0
+	w.height = 100
 	w.installMainNode()
 	if emit {
 		w.out.Emit("reset", "ok")
@@ -164,6 +166,14 @@ func (w *World) refreshAuth() {
 	w.adb.SetCode(a, assemble(w.codes[a], w.inits, au, w.budget))
 }
 
+// Wealth = sum of all balances + escrow + stake recorded in the registry (in wei).
+func (w *World) Wealth() *big.Int {
+	v := new(big.Int).Set(w.Total())
+	v.Add(v, w.escrowTotal())
+	v.Add(v, new(big.Int).Mul(w.stakedTokens(), oneRPG))
+	return v
+}
+
 // Total is the sum of every native-token balance there is: all slots of the token contract's
 // storage (in this harness that contract has no code of its own, so every slot is a balance).
 func (w *World) Total() *big.Int {
@@ -183,6 +193,10 @@ func (w *World) stateLine() string {
 	var sb strings.Builder
 	sb.WriteString("T=")
 	sb.WriteString(w.Total().String())
+	sb.WriteString(" E=")
+	sb.WriteString(w.escrowTotal().String())
+	sb.WriteString(" S=")
+	sb.WriteString(w.stakedTokens().String())
 	for _, a := range w.univ {
 		sb.WriteByte(' ')
 		sb.WriteString(w.adb.GetBalance(a).String())
@@ -316,6 +330,8 @@ type BlockResult struct {
 	Panic    string
 	GasUsed  []uint64
 	Msgs     []string
+	WBefore  *big.Int // balances + escrow + registry stake (wei)
+	WAfter   *big.Int
 }
 
 // Exec runs the queued transactions as one block through the unmodified VMExecutor and emits
@@ -324,9 +340,11 @@ func (w *World) Exec() BlockResult {
 	w.reopen()
 	w.refreshAuth()
 	w.authUsed = false
-	res := BlockResult{Before: w.Total()}
+	res := BlockResult{Before: w.Total(), WBefore: w.Wealth()}
 	w.height++
 	common.SetBlockHeight(w.height)
+	curWorld = w
+	w.escrowHeights[w.height+36000] = true
 	block := &types.Block{Header: &types.BlockHeader{Height: w.height, CurTime: time.Unix(1700000000+int64(w.height), 0),
 		Castor: []byte{0xca, 0x57}}}
 	for _, q := range w.queue {
@@ -345,7 +363,7 @@ func (w *World) Exec() BlockResult {
 	var evicted []common.Hash
 	var receipts []*types.Receipt
 	p := hx.Guard(func() string {
-		_, evicted, _, receipts = core.VerifC06Execute(w.adb, block, "testing")
+		_, evicted, _, receipts = core.VerifC06Execute(w.adb, block, "fullverify")
 		return ""
 	})
 	if p != "" {
@@ -393,25 +411,10 @@ func (w *World) Exec() BlockResult {
 		}
 	}
 	for i, q := range w.queue {
-		if q.feat["lock"] && i < len(res.GasUsed) && st.String()[i] == 's' {
-			for _, pm := range w.pendingMiners {
-				if strings.Contains(q.tx.Data, fmt.Sprintf("%x", pm.id)) {
-					w.miners = append(w.miners, pm)
-				}
-			}
+		if q.onSuccess != nil && st.String()[i] == 's' {
+			q.onSuccess()
 		}
 	}
-	for i, q := range w.queue {
-		if q.feat["node"] && st.String()[i] == 's' {
-			src := common.HexToAddress(q.tx.Source)
-			for j := range w.miners {
-				if w.miners[j].account == src {
-					w.miners[j].account = addrPlusOne(src)
-				}
-			}
-		}
-	}
-	w.pendingMiners = nil
 	res.Statuses = st.String()
 	if res.Statuses == "" {
 		res.Statuses = "-"
@@ -419,6 +422,7 @@ func (w *World) Exec() BlockResult {
 	w.reopen()
 	line := w.stateLine()
 	res.After = w.Total()
+	res.WAfter = w.Wealth()
 	w.out.Emit("exec", res.Statuses+" "+line)
 	w.queue = nil
 	return res
